@@ -309,6 +309,36 @@ fn check_hash(ctx: &Ctx, f: Func, prog: &Program, words: &[u32], class: &str, ve
     (c, digest)
 }
 
+/// "start from non-initial states": `first` runs on input `a`, its digest is dropped, then `second`
+/// runs on input `b` in the same execution (same context, same frame: the locals of the second
+/// procedure occupy the memory the first one left behind). Only the second digest is compared.
+fn compile_chain(first: Func, second: Func) -> Program {
+    let mut uses = vec![format!("use.std::crypto::hashes::{}", first.module())];
+    if second.module() != first.module() {
+        uses.push(format!("use.std::crypto::hashes::{}", second.module()));
+    }
+    let src = format!(
+        "{}\nbegin\n    exec.{}::{}\n    dropw dropw\n    exec.{}::{}\nend",
+        uses.join("\n"),
+        first.module(),
+        first.proc(),
+        second.module(),
+        second.proc()
+    );
+    assembler().compile(&src).unwrap_or_else(|e| panic!("family program must assemble: {src}: {e}"))
+}
+
+fn check_chain(ctx: &Ctx, first: Func, second: Func, prog: &Program, a: &[u32], b: &[u32], verbose: bool) -> &'static str {
+    let mut st: Vec<u64> = a.iter().chain(b.iter()).map(|&w| w as u64).collect();
+    st.extend_from_slice(&SENT);
+    let out = run_program(prog, &st, &[]);
+    let want = second.reference(b);
+    let class = format!("second_call_after_{}::{}", first.module(), first.proc());
+    let case = json!({"kind": "chain", "first": first.path(), "func": second.path(), "first_words": a, "words": b, "class": class});
+    let what = format!("after {} on {}: input words(top first)={}", first.path(), hex(&st[..a.len()]), hex(&st[a.len()..a.len() + b.len()]));
+    judge_stack(ctx, &second.path(), &class, &what, &case, &out, &want, SENT.len(), verbose)
+}
+
 // ------------------------------------------------------------------------------------------------
 // native (RPO) helpers
 // ------------------------------------------------------------------------------------------------
@@ -589,6 +619,13 @@ pub fn run(ctx: &Ctx, replay: Option<&Value>) -> i32 {
                 println!("input bytes = {:02x?}", f.bytes(&words));
                 check_hash(ctx, f, &f.compile(), &words, &class, true).0
             }
+            "chain" => {
+                let (f, g) = (Func::from_path(case["first"].as_str().expect("case.first")), Func::from_path(case["func"].as_str().expect("case.func")));
+                let a: Vec<u32> = u64s(&case["first_words"]).into_iter().map(|x| x as u32).collect();
+                let b: Vec<u32> = u64s(&case["words"]).into_iter().map(|x| x as u32).collect();
+                println!("program: exec {} ; dropw dropw ; exec {}", f.path(), g.path());
+                check_chain(ctx, f, g, &compile_chain(f, g), &a, &b, true)
+            }
             "hash_memory" => check_hash_memory(ctx, case["start"].as_u64().unwrap(), &u64s(&case["data"]), &class, true),
             "hash_memory_even" => check_hash_memory_even(
                 ctx,
@@ -678,6 +715,45 @@ pub fn run(ctx: &Ctx, replay: Option<&Value>) -> i32 {
             "input_words_top_first": hex(&w.iter().map(|&x| x as u64).collect::<Vec<_>>()),
             "reference_digest_words_top_first": hex(&f.reference(w)),
         }));
+    }
+
+    // ---- the same procedures from a non-initial state: every ordered pair (first, second), the second
+    // call's digest compared (memory / locals left behind by the first call must not matter)
+    {
+        let t0 = std::time::Instant::now();
+        let mut chain_cases: Vec<(Func, Func, Vec<u32>, Vec<u32>)> = vec![];
+        for f in FUNCS {
+            let a_inputs: Vec<Vec<u32>> = vec![(0..f.n_words()).map(|i| 0x0101_0101 * (i as u32 + 1)).collect(), vec![u32::MAX; f.n_words()]];
+            for g in FUNCS {
+                let all = hash_inputs(g.n_words(), Masks::Lanes);
+                let step = ctx.tier.pick(all.len() / 20 + 1, all.len() / 150 + 1);
+                for a in &a_inputs {
+                    for (b, _) in all.iter().step_by(step).chain(all.iter().rev().take(5)) {
+                        chain_cases.push((f, g, a.clone(), b.clone()));
+                    }
+                }
+            }
+        }
+        let progs: BTreeMap<(usize, usize), Program> = FUNCS
+            .iter()
+            .enumerate()
+            .flat_map(|(i, f)| FUNCS.iter().enumerate().map(move |(j, g)| ((i, j), compile_chain(*f, *g))))
+            .collect();
+        let idx = |f: Func| FUNCS.iter().position(|x| *x == f).unwrap();
+        let res: Vec<&'static str> = pool.install(|| {
+            chain_cases.par_iter().map(|(f, g, a, b)| check_chain(ctx, *f, *g, &progs[&(idx(*f), idx(*g))], a, b, false)).collect()
+        });
+        let mut classes: BTreeMap<&str, u64> = BTreeMap::new();
+        for c in &res {
+            *classes.entry(c).or_insert(0) += 1;
+            bump(&mut hist, c);
+        }
+        evaluations += chain_cases.len() as u64;
+        nontrivial += chain_cases.len() as u64;
+        per_proc.insert(
+            "second call in one execution (every ordered pair of the five procedures)".into(),
+            json!({"cases": chain_cases.len(), "ordered_pairs": 25, "outcome_classes": classes, "wall_s": (t0.elapsed().as_secs_f64() * 1000.0).round() / 1000.0}),
+        );
     }
 
     // ---- native::hash_memory: every length 0..=17 words x 3 start addresses x 4 data patterns
